@@ -5,7 +5,7 @@ from vlib.proto import unhex
 
 LEAN_TARGETS = ["LyModel.Props.C03"]
 AUDIT = "Audit/C03.lean"
-GENERATED = ["ValBounds", "Consts"]
+GENERATED = ["ValBounds", "Consts", "ValExt"]
 ASSUMPTIONS = [
     "libc is modelled, not verified: strtoll/strtoull of glibc 2.36 in the C locale (leading isspace, one optional sign, 0x/0 prefixes for base 0/16, "
     "ERANGE above 2^63-1 / 2^63 / 2^64-1; no C23 0b prefix), isspace/isdigit of the C locale, printf %d / %0*d",
@@ -18,7 +18,8 @@ ASSUMPTIONS = [
     "string patterns: the matcher of the model is the XSD matcher of C18 (XsdRe); the generated patterns stay inside the sub-grammar on which libyang's PCRE2 "
     "translation is correct (the deviations are findings of C18)",
 ]
-TRUSTED = ["tools/extractors/val.py (bounds, LYB sizes, executed lyplg_type_check_hints table)", "harness/api_types.c"]
+TRUSTED = ["tools/extractors/val.py (bounds, LYB sizes, executed lyplg_type_check_hints table)",
+           "tools/extractors/valx.py (shape of the union / identityref / string-pattern functions, repair switches)", "harness/api_types.c"]
 
 
 def classify(component, what, case):
